@@ -106,21 +106,38 @@ fn judge_n(m: Method, n: usize, levels: &[f64], s: &mut Sink) {
     if ks.is_empty() {
         return;
     }
-    let mut tab: Vec<Vec<Vec<Option<(f64, f64)>>>> = vec![];
-    for kind in KINDS {
-        let mut per_level = vec![];
-        for &l in levels {
-            let mut row = vec![None; n + 1];
-            for &k in &ks {
+    // the three kinds are requested one after the other for every (level, k), so that a result
+    // depending on the previous call (a cache keyed without the kind, say) cannot hide
+    let mut tab: Vec<Vec<Vec<Option<(f64, f64)>>>> = vec![vec![vec![None; n + 1]; levels.len()]; 3];
+    for (li, &l) in levels.iter().enumerate() {
+        for &k in &ks {
+            for (ki, kind) in KINDS.iter().copied().enumerate() {
                 s.calls += 1;
-                row[k] = call(m, kind, l, n, k);
-                if row[k].is_none() {
+                tab[ki][li][k] = call(m, kind, l, n, k);
+                if tab[ki][li][k].is_none() {
                     s.violation(format!("{m:?}/admissible-input-not-Ok-two-sided-shape"), format!("{m:?} n={n} k={k} {} {l}", kind.name()), json!({"m":m,"n":n,"k":k,"kind":kind,"level":l}));
                 }
             }
-            per_level.push(row);
         }
-        tab.push(per_level);
+    }
+    // the same table once more in the order of a sweep at a fixed confidence (kind, level
+    // fixed, k running): an interval is a function of (confidence, n, k) alone, so both
+    // tables must agree bit for bit
+    for (ki, kind) in KINDS.iter().copied().enumerate() {
+        for (li, &l) in levels.iter().enumerate() {
+            for &k in &ks {
+                s.calls += 1;
+                let again = call(m, kind, l, n, k);
+                let same = match (again, tab[ki][li][k]) {
+                    (Some(a), Some(b)) => a.0.to_bits() == b.0.to_bits() && a.1.to_bits() == b.1.to_bits(),
+                    (None, None) => true,
+                    _ => false,
+                };
+                if !same {
+                    s.violation(format!("{m:?}/result-depends-on-previous-calls/{}", kind.name()), format!("{m:?} n={n} k={k} {} {l}: {:?} when requested after the other kinds at this level, {again:?} in a sweep over k at fixed confidence", kind.name(), tab[ki][li][k]), json!({"m":m,"n":n,"k":k,"kind":kind,"level":l,"relation":"call-order"}));
+                }
+            }
+        }
     }
     let mname = format!("{m:?}");
     for (ki, kind) in KINDS.iter().copied().enumerate() {
@@ -245,7 +262,7 @@ fn main() {
     s.sample(json!({"m":"Wilson","n":30,"k":7,"kind":"Upper","level":0.95,"relations":["low(k=7)<=low(k=8)","[lo,1] = 1-[0,hi] of (30,23) Lower","low(0.95) > low(0.975)","low(60,14) > low(30,7)","0<=lo<=1"]}));
     s.sample(json!({"m":"Wald","n":40,"k":20,"kind":"Two","level":0.5,"relations":["mirror","monotone-k","level","shrink with m in {2,3,5,10}"]}));
     s.sample(json!({"m":"Wilson","n":4,"k":2,"kind":"Two","level":0.9999,"relations":["midpoint between k/n and 1/2"]}));
-    rep.rule = format!("every admissible (n,k) (Wilson: 2<=k<=n-2, Wald: 10<=k<=n-10) for n<={} x {} levels x 3 kinds through proportion::ci / ci_z_normal, plus the same proportion at (m n, m k) for m in {{2,3,5,10}} and, for n in {{4,5,20,64,100,600}}, at m in {{2^20, 2^31, 2^40}} (chain of strictly narrower intervals, mirror image and [0,1] at the big populations; a panic counts as no interval); relations checked between real runs; distinct by (method, kind, k/n<1/2, level>1/2)", tier.pick(600, 6000), mc::levels(tier).len());
+    rep.rule = format!("every admissible (n,k) (Wilson: 2<=k<=n-2, Wald: 10<=k<=n-10) for n<={} x {} levels x 3 kinds through proportion::ci / ci_z_normal, plus the same proportion at (m n, m k) for m in {{2,3,5,10}} and, for n in {{4,5,20,64,100,600}}, at m in {{2^20, 2^31, 2^40}} (chain of strictly narrower intervals, mirror image and [0,1] at the big populations; a panic counts as no interval); relations checked between real runs; every table entry computed in two call orders (kinds interleaved / sweep over k at fixed confidence) which must agree bit for bit; distinct by (method, kind, k/n<1/2, level>1/2)", tier.pick(600, 6000), mc::levels(tier).len());
     rep.assume("strict narrowing with n is claimed for two-sided intervals at every level and for one-sided intervals at levels > 1/2 (below 1/2 the finite bound lies beyond k/n and moves towards it, which widens [bound, 1]); those cases are counted as skipped");
     rep.assume("[0,1] and midpoint clauses are asserted for the default (Wilson) interval only; Wald bounds legitimately leave [0,1]");
     rep.require(s.distinct() >= 12, "fewer than 12 distinct classes: vacuous");
